@@ -7,6 +7,7 @@ import (
 	"github.com/LemoFoundationLtd/lemochain-core/common"
 	"github.com/LemoFoundationLtd/lemochain-core/common/log"
 	"github.com/LemoFoundationLtd/lemochain-core/network"
+	"sync"
 )
 
 type confirmWriter interface {
@@ -20,6 +21,8 @@ type Confirmer struct {
 	confirmStore confirmWriter
 	dm           *deputynode.Manager
 	lastSig      blockSignRecord
+	// lastSig is read and written with the chain lock (TryConfirm) and without it (BatchConfirmStable in its own goroutine)
+	lastSigLock sync.Mutex
 }
 
 type blockSignRecord struct {
@@ -72,8 +75,10 @@ func (c *Confirmer) needConfirm(block *types.Block) bool {
 	// It's not necessary to test if the block was mined or been confirmed by myself. Because confirmed blocks must be in database. So they will be dropped by network module at the beginning
 
 	// load last confirmed block
+	c.lastSigLock.Lock()
 	lastConfirmHeight := c.lastSig.Height
 	lastConfirmHash := c.lastSig.Hash
+	c.lastSigLock.Unlock()
 	stable, _ := c.stableLoader.LoadLatestBlock()
 	if lastConfirmHeight <= stable.Height() {
 		lastConfirmHeight = stable.Height()
@@ -146,6 +151,9 @@ func (c *Confirmer) NeedConfirmList(startHeight, endHeight uint32) []network.Get
 
 // SetLastSig
 func (c *Confirmer) SetLastSig(block *types.Block) {
+	c.lastSigLock.Lock()
+	defer c.lastSigLock.Unlock()
+
 	if block.Height() > c.lastSig.Height {
 		c.lastSig.Height = block.Height()
 		c.lastSig.Hash = block.Hash()
